@@ -307,6 +307,14 @@ func execute(t *testing.T, w *World, rc *RunCfg, fk *Fake, rep *vh.Report) (out 
 			out.caughtUp = fin || fk.servedAll(rc.Start, rc.Final) && fk.sthPos >= len(fk.sthScript)
 			fk.mu.Unlock()
 		}
+		if out.caughtUp {
+			// "served" is the fake's side of the last exchange; the callbacks that deliver it take (virtual) time
+			// (pause(): up to 400 ms each, one after the other): one more quiet period lets every pending
+			// delivery happen before the delivered set is judged (false alarm of the thorough tier: the last
+			// batch was served less than 400 ms before the end of a quiet period)
+			time.Sleep(120 * time.Second)
+			synctest.Wait()
+		}
 		fk.mu.Lock()
 		if !fk.stoppedOrCancelled(&out) && !over() {
 			if !out.caughtUp {
